@@ -237,11 +237,8 @@ Definition demo_pool : list spec :=
 
 Example demo_invariant : Inv (node_ok true) (build FUEL demo_pool) /\ NoPending (build FUEL demo_pool) /\ PileCacheOK (build FUEL demo_pool).
 Proof.
-  split; [apply build_ok; intros _; repeat constructor; left; reflexivity|]. split.
-  - intros id n G. unfold getn, nthz in G. destruct (id <? 0); [discriminate|].
-    do 8 (destruct (Z.to_nat id) as [|?]; [injection G as <-; reflexivity|]; cbn in G). destruct n0; discriminate.
-  - intros id n G K S. unfold getn, nthz in G. destruct (id <? 0); [discriminate|].
-    do 8 (destruct (Z.to_nat id) as [|?]; [injection G as <-; try discriminate|]; cbn in G). destruct n0; discriminate.
+  split; [apply build_ok; intros _; unfold demo_pool; repeat (apply Forall_cons; [try exact I; left; reflexivity|]); apply Forall_nil|].
+  split; [apply no_pending_b_ok|apply piles_selectable_b_ok]; vm_compute; reflexivity.
 Qed.
 
 (* 'x' is handled by leaf 0; 'right' skips the unselectable column; 'down' leaves the Columns; a press on the
